@@ -77,8 +77,11 @@ def run(ctx):
     i = ctx.run_vh(["cache-random", "-out", tr, "-traces", 60 if q else 600, "-len", 80 if q else 200], timeout=1500)
     tr2 = os.path.join(ctx.work, "clru-pool.ndjson")
     i2 = ctx.run_vh(["cache-random", "-out", tr2, "-traces", 60 if q else 600, "-len", 80 if q else 200, "-pool", 5], timeout=1500)
-    traces = split(tr) + split(tr2)
-    i["events"] = i.get("events", 0) + i2.get("events", 0)
+    # the typed front with InvalidatePattern (keys are digests: the specification chooses which entries a fragment matched)
+    tr3 = os.path.join(ctx.work, "clru-pat.ndjson")
+    i3 = ctx.run_vh(["lru-searchcache", "-out", tr3, "-invpat", "-traces", 120 if q else 1200, "-len", 60 if q else 120], timeout=1500)
+    traces = split(tr) + split(tr2) + split(tr3)
+    i["events"] = i.get("events", 0) + i2.get("events", 0) + i3.get("events", 0)
     n = 8
     bad = []
     with ThreadPoolExecutor(max_workers=n) as ex:
